@@ -79,6 +79,8 @@ pub fn handle(line: &str) -> String {
     w.events.push(json!({"msg": "--parse-done--"}));
     runner.analyze_functions(&mut w, true);
     runner.analyze_templates(&mut w, true);
+    #[cfg(has_main_component)]
+    runner.analyze_main_component(&mut w, true);
     let lib = runner.file_library();
     let mut files = Vec::new();
     let mut id = 0;
